@@ -17,7 +17,6 @@ package s3event
 import (
 	"bytes"
 	"encoding/json"
-	"encoding/xml"
 	"fmt"
 	"net"
 	"net/http"
@@ -26,7 +25,6 @@ import (
 	"time"
 
 	"github.com/gofiber/fiber/v2"
-	"github.com/versity/versitygw/s3response"
 )
 
 type Webhook struct {
@@ -81,15 +79,14 @@ func (w *Webhook) SendEvent(ctx *fiber.Ctx, meta EventMeta) {
 	}
 
 	if meta.EventName == EventObjectRemovedDeleteObjects {
-		var dObj s3response.DeleteObjects
-
-		if err := xml.Unmarshal(ctx.Body(), &dObj); err != nil {
+		objs, err := deletedObjects(ctx, meta)
+		if err != nil {
 			fmt.Fprintf(os.Stderr, "failed to parse delete objects input payload: %v\n", err.Error())
 			return
 		}
 
 		// Events aren't send in correct order
-		for _, obj := range dObj.Objects {
+		for _, obj := range objs {
 			if obj.Key == nil {
 				// an entry without a key: nothing was deleted for it
 				continue
